@@ -15,5 +15,5 @@ AllWords == FinWords \cup {Inf(TRUE), Inf(FALSE), NaN}
 \* finite words with lsb exponent in a window (normal numbers only), both signs
 WordsIn(elo, ehi) == { [k |-> "f", neg |-> s, mag |-> FromInt(m), e |-> e] :
                          s \in BOOLEAN, m \in P2(P - 1)..(P2(P) - 1), e \in elo..ehi }
-ValidPairsOf(his, los) == { TF(h, l) : h \in his, l \in { x \in los : NoOverlapLiteral(h, x) } }
+ValidPairsOf(his, los) == UNION { { TF(h, l) : l \in { x \in los : NoOverlapLiteral(h, x) } } : h \in his }
 =============================================================================
